@@ -179,6 +179,216 @@ pub fn encode(c: &EncCase) -> Result<Vec<u8>, String> {
     }
 }
 
+/// an animation written frame by frame: every frame is an image "accepted by the encoder" and has to come back unchanged
+#[derive(Clone, Debug)]
+pub struct AnimCase {
+    pub color: u8,
+    pub depth: u8,
+    pub w: u32,
+    pub h: u32,
+    /// (x, y, w, h, pixels, filter for this frame); the first frame covers the canvas
+    pub frames: Vec<(u32, u32, u32, u32, Vec<u8>, u8)>,
+    pub compression: u8,
+    /// per frame: 0 write_image_data, 1 the stream writer that is open (a new one if none is), 2 a fresh stream writer
+    pub modes: Vec<u8>,
+    pub stream_buf: usize,
+    pub partition: Vec<usize>,
+}
+
+impl AnimCase {
+    fn json(&self) -> J {
+        J::obj()
+            .set("anim", J::Bool(true)).set("color", J::i(self.color)).set("depth", J::i(self.depth)).set("w", J::i(self.w)).set("h", J::i(self.h))
+            .set("compression", J::i(self.compression)).set("stream_buf", J::i(self.stream_buf as u64))
+            .set("modes", J::Arr(self.modes.iter().map(|&x| J::i(x)).collect()))
+            .set("partition", J::Arr(self.partition.iter().map(|&x| J::i(x as u64)).collect()))
+            .set("frames", J::Arr(self.frames.iter().map(|f| J::obj().set("x", J::i(f.0)).set("y", J::i(f.1)).set("w", J::i(f.2)).set("h", J::i(f.3)).set("pixels", J::s(&hex(&f.4))).set("filter", J::i(f.5))).collect()))
+    }
+    fn from_json(j: &J) -> Option<AnimCase> {
+        let g = |k: &str| j.get(k).and_then(|v| v.as_i64());
+        let arr = |k: &str| -> Vec<usize> { j.get(k).and_then(|v| v.as_arr()).map(|a| a.iter().filter_map(|x| x.as_i64()).map(|x| x as usize).collect()).unwrap_or_default() };
+        let frames = j.get("frames")?.as_arr()?.iter().filter_map(|f| {
+            let g = |k: &str| f.get(k).and_then(|v| v.as_i64());
+            Some((g("x")? as u32, g("y")? as u32, g("w")? as u32, g("h")? as u32, unhex(f.get("pixels")?.as_str()?)?, g("filter")? as u8))
+        }).collect();
+        Some(AnimCase { color: g("color")? as u8, depth: g("depth")? as u8, w: g("w")? as u32, h: g("h")? as u32, frames, compression: g("compression")? as u8,
+            modes: arr("modes").into_iter().map(|x| x as u8).collect(), stream_buf: g("stream_buf")? as usize, partition: arr("partition") })
+    }
+}
+
+fn set_compression_of<W: Write>(enc: &mut png::Encoder<W>, compression: u8) {
+    match compression {
+        0 => enc.set_deflate_compression(png::DeflateCompression::NoCompression),
+        1 => enc.set_deflate_compression(png::DeflateCompression::FdeflateUltraFast),
+        2..=11 => enc.set_deflate_compression(png::DeflateCompression::Level(compression - 2)),
+        _ => enc.set_deflate_compression(png::DeflateCompression::Level(6)),
+    }
+}
+
+pub fn encode_anim(c: &AnimCase) -> Result<Vec<u8>, String> {
+    let c = c.clone();
+    match guarded(move || -> Result<Vec<u8>, String> {
+        let mut sink = ShortSink { data: vec![], schedule: vec![], calls: 0 };
+        {
+            let mut enc = png::Encoder::new(&mut sink, c.w, c.h);
+            enc.set_color(color_of(c.color));
+            enc.set_depth(depth_of(c.depth));
+            if c.color == 3 {
+                enc.set_palette(vec![7u8; 3 * 256]);
+            }
+            enc.set_animated(c.frames.len() as u32, 0).map_err(|e| format!("set_animated: {}", e))?;
+            set_compression_of(&mut enc, c.compression);
+            enc.set_filter(filter_of(c.frames[0].5));
+            let mut w = enc.write_header().map_err(|e| format!("write_header: {}", e))?;
+            let n = c.frames.len();
+            let mut i = 0;
+            while i < n {
+                let mode = c.modes[i % c.modes.len().max(1)];
+                if mode == 0 {
+                    let f = &c.frames[i];
+                    if i > 0 {
+                        w.reset_frame_position().map_err(|e| format!("reset_frame_position: {}", e))?;
+                        w.reset_frame_dimension().map_err(|e| format!("reset_frame_dimension: {}", e))?;
+                        w.set_frame_dimension(f.2, f.3).map_err(|e| format!("set_frame_dimension: {}", e))?;
+                        w.set_frame_position(f.0, f.1).map_err(|e| format!("set_frame_position: {}", e))?;
+                    }
+                    w.set_filter(filter_of(f.5));
+                    w.write_image_data(&f.4).map_err(|e| format!("write_image_data (frame {}): {}", i, e))?;
+                    i += 1;
+                } else {
+                    // one stream writer for this frame and for the following frames of mode 1; a new stream writer begins its
+                    // frame when it is created, so the rectangle and filter of that frame are set on the `Writer` before
+                    if i > 0 {
+                        let f = &c.frames[i];
+                        w.reset_frame_position().map_err(|e| format!("reset_frame_position: {}", e))?;
+                        w.reset_frame_dimension().map_err(|e| format!("reset_frame_dimension: {}", e))?;
+                        w.set_frame_dimension(f.2, f.3).map_err(|e| format!("set_frame_dimension: {}", e))?;
+                        w.set_frame_position(f.0, f.1).map_err(|e| format!("set_frame_position: {}", e))?;
+                    }
+                    w.set_filter(filter_of(c.frames[i].5));
+                    let mut sw = if c.stream_buf == 0 { w.stream_writer() } else { w.stream_writer_with_size(c.stream_buf) }.map_err(|e| format!("stream_writer: {}", e))?;
+                    let mut first = true;
+                    let mut k = 0usize;
+                    while i < n && (first || c.modes[i % c.modes.len().max(1)] == 1) {
+                        let f = &c.frames[i];
+                        if i > 0 && !first {
+                            sw.reset_frame_position().map_err(|e| format!("stream reset_frame_position: {}", e))?;
+                            sw.reset_frame_dimension().map_err(|e| format!("stream reset_frame_dimension: {}", e))?;
+                            sw.set_frame_dimension(f.2, f.3).map_err(|e| format!("stream set_frame_dimension: {}", e))?;
+                            sw.set_frame_position(f.0, f.1).map_err(|e| format!("stream set_frame_position: {}", e))?;
+                        }
+                        if !first {
+                            sw.set_filter(filter_of(f.5));
+                        }
+                        let mut pos = 0;
+                        let mut stall = 0;
+                        while pos < f.4.len() {
+                            let want = if c.partition.is_empty() { f.4.len() } else { c.partition[k % c.partition.len()].max(1) };
+                            k += 1;
+                            let end = (pos + want).min(f.4.len());
+                            let m = sw.write(&f.4[pos..end]).map_err(|e| format!("stream write (frame {}): {}", i, e))?;
+                            if m == 0 {
+                                stall += 1;
+                                if stall > 3 {
+                                    return Err("stream write accepted 0 bytes repeatedly".into());
+                                }
+                            } else {
+                                stall = 0;
+                            }
+                            pos += m;
+                        }
+                        first = false;
+                        i += 1;
+                    }
+                    sw.finish().map_err(|e| format!("stream finish: {}", e))?;
+                }
+            }
+            w.finish().map_err(|e| format!("finish: {}", e))?;
+        }
+        Ok(sink.data)
+    }) {
+        Ok(r) => r,
+        Err(p) => Err(format!("PANIC {}", p)),
+    }
+}
+
+/// every frame of the file through the real decoder: (x, y, w, h, bytes)
+fn decode_frames(file: &[u8], n: usize) -> Result<Vec<(u32, u32, u32, u32, Vec<u8>)>, String> {
+    let file = file.to_vec();
+    match guarded(move || -> Result<Vec<(u32, u32, u32, u32, Vec<u8>)>, String> {
+        let mut d = png::Decoder::new(std::io::Cursor::new(file));
+        d.set_transformations(png::Transformations::IDENTITY);
+        let mut r = d.read_info().map_err(|e| format!("read_info: {}", e))?;
+        let mut buf = vec![0u8; r.output_buffer_size()];
+        let mut out = vec![];
+        for i in 0..n {
+            let info = r.next_frame(&mut buf).map_err(|e| format!("next_frame {}: {}", i, e))?;
+            let fc = r.info().frame_control().ok_or_else(|| format!("frame {} has no frame control", i))?;
+            out.push((fc.x_offset, fc.y_offset, fc.width, fc.height, buf[..info.buffer_size()].to_vec()));
+        }
+        r.finish().map_err(|e| format!("finish: {}", e))?;
+        Ok(out)
+    }) {
+        Ok(r) => r,
+        Err(p) => Err(format!("PANIC {}", p)),
+    }
+}
+
+fn judge_anim(c: &AnimCase, file: &Result<Vec<u8>, String>) -> Option<(&'static str, String, String)> {
+    let uses_stream = c.modes.iter().any(|&m| m != 0);
+    let tag = if uses_stream { "animation/stream" } else { "animation/image" };
+    let file = match file {
+        Err(e) => {
+            let k = if e.starts_with("PANIC") { "panic" } else { "refused" };
+            return Some(("oracle", format!("encode-{}/{}", k, tag), format!("encoder failed on an acceptable animation: {}", e)));
+        }
+        Ok(f) => f,
+    };
+    match decode_frames(file, c.frames.len()) {
+        Err(e) => Some(("oracle", format!("undecodable/{}", tag), format!("encoder output is not decodable: {}", e))),
+        Ok(fs) => {
+            for (i, (got, want)) in fs.iter().zip(&c.frames).enumerate() {
+                if (got.0, got.1, got.2, got.3) != (want.0, want.1, want.2, want.3) {
+                    return Some(("oracle", format!("frame-rectangle/{}", tag), format!("frame {}: rectangle read back {:?}, written {:?}", i, (got.0, got.1, got.2, got.3), (want.0, want.1, want.2, want.3))));
+                }
+                if got.4 != want.4 {
+                    let at = got.4.iter().zip(&want.4).position(|(a, b)| a != b).unwrap_or(0);
+                    return Some(("oracle", format!("lossy/{}", tag), format!("frame {} (filter {}): decoded bytes differ from the bytes given at offset {} (decoded {} bytes, gave {})", i, want.5, at, got.4.len(), want.4.len())));
+                }
+            }
+            None
+        }
+    }
+}
+
+fn gen_anim(rng: &mut Rng) -> AnimCase {
+    let (color, depth) = *rng.pick(&LEGAL_PAIRS);
+    let w = rng.range(1, 12) as u32;
+    let h = rng.range(1, 8) as u32;
+    let n = rng.usize(2, 4);
+    let same_filter = rng.below(3) != 0;
+    let f0 = rng.below(6) as u8;
+    let mut frames = vec![];
+    for i in 0..n {
+        let (x, y, fw, fh) = if i == 0 || rng.below(2) == 0 { (0, 0, w, h) } else {
+            let fw = rng.range(1, w as u64) as u32;
+            let fh = rng.range(1, h as u64) as u32;
+            (rng.range(0, (w - fw) as u64) as u32, rng.range(0, (h - fh) as u64) as u32, fw, fh)
+        };
+        let mut img = Img::random(rng, color, depth, fw, fh);
+        if rng.below(4) == 0 {
+            // a last row that is far from zero: what a stale predecessor row would be filtered against
+            let rb = img.row_bytes();
+            let len = img.pixels.len();
+            for b in &mut img.pixels[len - rb..] { *b |= 0xa5; }
+        }
+        frames.push((x, y, fw, fh, img.pixels, if same_filter { f0 } else { rng.below(6) as u8 }));
+    }
+    let modes = match rng.below(5) { 0 => vec![0], 1 => vec![1], 2 => vec![2], 3 => vec![1, 1, 0], _ => (0..n).map(|_| rng.below(3) as u8).collect() };
+    AnimCase { color, depth, w, h, frames, compression: *rng.pick(&[0u8, 1, 3, 8]), modes, stream_buf: *rng.pick(&[0usize, 1, 7, 64]),
+        partition: match rng.below(3) { 0 => vec![], 1 => vec![1], _ => (0..rng.usize(1, 4)).map(|_| rng.usize(1, 40)).collect() } }
+}
+
 fn judge(c: &EncCase, model_ans: Option<&str>, file: &Result<Vec<u8>, String>) -> Option<(&'static str, String, String)> {
     let tag = format!("{}{}", if c.path == 0 { "image" } else { "stream" }, if c.interlaced_flag { "+interlaced-flag" } else { "" });
     let file = match file {
@@ -252,7 +462,8 @@ fn gen(rng: &mut Rng, big: bool) -> EncCase {
 pub fn run(ctx: &mut Ctx) {
     ctx.rep.rule = "real Encoder output decoded by the real decoder and by the Lean specification decoder: 15 colour/depth pairs x widths {1..9, 31..34, 63..66, 127..130, random} x heights \
         x 6 filter settings x 17 compression settings (NoCompression, FdeflateUltraFast, Level 0..9, 5 presets) x {write_image_data, stream_writer with buffer size in {default,1,2,7,64,4096}} \
-        x write() partitions (1-byte, whole, random, straddling row ends) x sink short-write schedules; adversarial pixel data classes; plus Info.interlaced=true through with_info; \
+        x write() partitions (1-byte, whole, random, straddling row ends) x sink short-write schedules; adversarial pixel data classes; plus Info.interlaced=true through with_info; plus animations of 2..4 frames (whole canvas and sub-frames, 15 colour/depth pairs, per-frame filters, \
+        frames written by write_image_data / one stream writer across frames / a fresh stream writer per frame / mixed) read back frame by frame; \
         non-trivial = at least 2 rows and filter != NoFilter and compression != NoCompression; distinct = hash of all case parameters".into();
     let mut rng = ctx.rng.fork(1);
     let n = ctx.n(900, 15000);
@@ -314,9 +525,37 @@ pub fn run(ctx: &mut Ctx) {
             ctx.rep.sample(c.summary());
         }
     }
+    // animations: every frame (whole canvas or sub-frame; whole-image call, one stream writer across frames, a fresh stream
+    // writer per frame, mixed) must come back unchanged
+    for k in 0..ctx.n(1500, 20000) {
+        let mut r = rng.fork(9_000_000 + k as u64);
+        let c = gen_anim(&mut r);
+        let nontrivial = c.frames.len() >= 2 && c.frames.iter().skip(1).any(|f| f.5 >= 2 && f.3 >= 1);
+        ctx.rep.eval(nontrivial, fnv64(c.json().to_string().as_bytes()));
+        ctx.rep.count("animation frames", &c.frames.len().to_string());
+        ctx.rep.count("animation path", &c.modes.iter().map(|m| m.to_string()).collect::<Vec<_>>().join(""));
+        ctx.rep.count("animation later-frame filter", &c.frames[1].5.to_string());
+        let file = encode_anim(&c);
+        if let Some((kind, class, what)) = judge_anim(&c, &file) {
+            ctx.rep.violation(kind, &class, &what, c.json());
+        }
+    }
 }
 
 pub fn replay(ctx: &mut Ctx, case: &J) {
+    if matches!(case.get("anim"), Some(J::Bool(true))) {
+        if let Some(c) = AnimCase::from_json(case) {
+            let file = encode_anim(&c);
+            if let (Ok(f), Ok(path)) = (&file, std::env::var("VERIF_DUMP")) {
+                let _ = std::fs::write(path, f);
+            }
+            ctx.rep.eval(true, 1);
+            if let Some((kind, class, what)) = judge_anim(&c, &file) {
+                ctx.rep.violation(kind, &class, &what, c.json());
+            }
+        }
+        return;
+    }
     if let Some(c) = EncCase::from_json(case) {
         let file = encode(&c);
         if let (Ok(f), Ok(path)) = (&file, std::env::var("VERIF_DUMP")) {
